@@ -447,7 +447,7 @@ def add_pdf(world, rng, tight=False):
     return world
 
 
-def gen_case(seed, force_faults=None, clean=None):
+def gen_case(seed, force_faults=None, clean=None, defaults=False):
     rng = core.Rng(seed)
     r_f = rng.sub('faults')
     if force_faults is not None:
@@ -535,12 +535,38 @@ def gen_case(seed, force_faults=None, clean=None):
         else:
             requested.append(rn)
 
+    dflt = {}
+    if defaults:
+        # a [DEFAULT] section (configparser semantics: its options show up in every section that exists): one or two input
+        # names that exactly one form declares get a default text that differs from what the user would answer
+        r_d = rng.sub('defaults')
+        count = {}
+        for fs in forms:
+            for i in fs['inputs']:
+                count[i['name']] = count.get(i['name'], 0) + 1
+        cands = [(fs, i) for fs in forms for i in fs['inputs'] if count[i['name']] == 1 and i['type'] in ('int', 'float', 'bool', 'str')]
+        for fs, i in r_d.sample(cands, min(len(cands), r_d.pick([1, 1, 2]))):
+            for _ in range(6):
+                txt, typed = render_value(r_d, i)
+                if all(persona[qual(fs, inst, i['name'])]['typed'] != typed for inst in instances_of(fs)) and txt.strip() != '':
+                    break
+            else:
+                continue
+            dflt[i['name']] = {'text': txt.strip(), 'typed': typed, 'form': fs['name']}
+            for inst in instances_of(fs):
+                q = qual(fs, inst, i['name'])
+                persona[q]['default_text'] = txt.strip()
+                persona[q]['default_typed'] = typed
+                if q in infile:
+                    infile.remove(q)
+        if dflt:
+            refuse_at = None
     r_o = rng.sub('sched')
     sched = [None, 0] if r_o.chance(0.2) else [r_o.randrange(1 << 32), r_o.pick([0, 0, 1, 3])]
     layout = None if r_o.chance(0.4) else r_o.randrange(1 << 32)
     return {'world': world, 'persona': persona, 'file': infile, 'prompt': prompt,
             'refuse_at': refuse_at, 'sched': sched, 'requested': requested,
-            'field_names': field_names, 'layout': layout, 'faults': faults, 'dup': dup}
+            'field_names': field_names, 'layout': layout, 'faults': faults, 'dup': dup, 'defaults': dflt}
 
 
 # ----------------------------------------------------------------------------------
@@ -551,11 +577,14 @@ def file_text(case_or_items, layout=None, names=None):
     configparser defines as meaning-preserving: section order, key order, delimiter,
     spacing, blank/comment lines, key case, CRLF.
     case_or_items: a case dict (uses persona/file) or a list of (qualified name, text)."""
+    head = []
     if isinstance(case_or_items, dict):
         case = case_or_items
         names = case['file'] if names is None else names
         items = [(n, case['persona'][n]['text']) for n in names]
         layout = case.get('layout') if layout is None else layout
+        if case.get('defaults'):
+            head = ['[DEFAULT]'] + [f"{k} = {d['text']}" for k, d in sorted(case['defaults'].items())] + ['']
     else:
         items = list(case_or_items)
     sections = {}
@@ -570,11 +599,11 @@ def file_text(case_or_items, layout=None, names=None):
             for k, t in sections[sec]:
                 out.append(f'{k} = {t}')
             out.append('')
-        return '\n'.join(out)
+        return '\n'.join(head + out)
     rng = core.Rng(core.h64('layout', layout))
     rng.shuffle(secnames)
     nl = '\r\n' if rng.chance(0.15) else '\n'
-    out = []
+    out = list(head)
     if rng.chance(0.3):
         out.append('# generated layout')
     for sec in secnames:
